@@ -11,7 +11,8 @@ TRUSTED = [
     "reference semantics coq/Model/Rel.v + Value.v (specification of sort/take/filter/select/derive/join on lists of rows)",
     "end-to-end oracle: generator vplib/rel/prog.py, harness (prqlc::compile, bundled SQLite), comparison vplib/rel/run.py",
     "hand-written model coq/Model/Flatten.v of semantic/resolver/flatten.rs (kind level: carried sort, sort_undone, partition of nested groups, aggregate ending the sort, relational arguments), tied on every run by comparing its output with the implementation's RQ on every generated program and on random nested shapes",
-    "modelled, not verified: column identity of sort keys across sub-query boundaries (cid redirects, alias_last_sorting) and SQLite's ORDER BY semantics are covered by execution only",
+    "the cid-level part of Model/Sorts.v (redirect_sorts, widening, fresh ids and redirects of fold_sql_query) is tied to the code through the hook 366a622 on every program; alias_last_sorting (the re-targeting of the main query's final ORDER BY) is NOT modelled: only its directions are compared",
+    "modelled, not verified: whether an emitted ORDER BY column can be named where it sits (the back end resolves it by NAME: covered by execution and by C07's scope checker) and SQLite's ORDER BY semantics",
 ]
 
 DIRS = {"Asc": "false", "Desc": "true"}
@@ -711,6 +712,7 @@ def run():
     ck.coverage["programs_with_tied_order_checked_by_keys"] = nkeys
     srcs = sorted({r["prql"] for r in recs if "sql" in r})
     infer_stream(ck, srcs)
+    cid_stream(ck, srcs)
     seenp, progs = set(), []
     for pg, _ in cases:
         if pg.prql() not in seenp:
@@ -723,4 +725,4 @@ def run():
     ck.assumptions += ["each ordered program runs on two insertion orders of the same rows, so an order that is only incidental on one of them shows",
                        "positional transforms are only generated while the order in effect ends in a unique key (documented meaning deterministic); ties are checked through the key columns when they survive to the result",
                        "a syntactic clause accompanies execution: when an order is in effect and more than one row is returned, the outermost query must carry an ORDER BY"]
-    ck.finish(TRUSTED, "streams: order = sort followed by each of 13 transform kinds (directed) + random pipelines weighted towards sort/take/select/join, each on 2 insertion orders x {sqlite, generic}, compared as sequences; infer = Model/Sorts.v run on the implementation's pre-postprocess PQ vs its post-processed PQ for every distinct program; flatten = Model/Flatten.v (and its specification carried_spec) vs the order-sensitive transforms of the implementation's RQ for every generated program + random nested shapes (groups in groups, window bodies, aggregates inside and outside of groups, relational arguments). distinct = hash of (program, target, instance); non-trivial = non-empty result or a failure")
+    ck.finish(TRUSTED, "streams: order = sort followed by each of 13 transform kinds (directed) + random pipelines weighted towards sort/take/select/join, each on 2 insertion orders x {sqlite, generic}, compared as sequences; infer = Model/Sorts.v run on the implementation's pre-postprocess PQ vs its post-processed PQ for every distinct program; cid = the cid-level inference of Model/Sorts.v run on the entry state logged by the hook verif:infer_sorts vs the exit state (every emitted Sort with its column ids, every Select, the cid_redirects of every relation instance, the id generator); flatten = Model/Flatten.v (and its specification carried_spec) vs the order-sensitive transforms of the implementation's RQ for every generated program + random nested shapes (groups in groups, window bodies, aggregates inside and outside of groups, relational arguments). distinct = hash of (program, target, instance); non-trivial = non-empty result or a failure")
